@@ -6,6 +6,22 @@ Local Open Scope N_scope.
 
 Definition listN_eqb := list_eqb N.eqb.
 
+(** ** Which responses are event streams
+
+    response_buffer_middleware.go, ShouldSwitchToUnbuffered: the media type is the Content-Type value up to its
+    first ';', compared byte for byte with "text/event-stream" - whatever follows the ';' (parameters, however
+    sloppy) does not matter, and no other spelling (capitals, a blank before the ';') counts. *)
+Fixpoint before_semicolon (s : str) : str :=
+  match s with
+  | [] => []
+  | c :: r => if byte_eqb c x3b then [] else c :: before_semicolon r
+  end.
+
+Definition event_stream_type : str :=
+  [x74;x65;x78;x74;x2f;x65;x76;x65;x6e;x74;x2d;x73;x74;x72;x65;x61;x6d].      (* "text/event-stream" *)
+
+Definition event_stream_of (content_type : str) : bool := str_eqb (before_semicolon content_type) event_stream_type.
+
 (** ** Buffer level *)
 
 (** One observed write: error class, Overflowed(), sizes of the files in TMPDIR. *)
